@@ -11,7 +11,7 @@ func init() {
 	register(&Property{
 		ID:          "C06",
 		Technique:   "static analysis: dominance/path search on a labelled CFG (ordering of durable effects on the persist/apply/snapshot/restart path), guard implication by truth table, argument provenance on canonical terms",
-		Explanation: "Decides the ordering obligations named in the property's anchors on every path: (S1) the snapshot file is written and fsynced before its WAL marker; (S2) in the snapshot goroutine SaveSnap < Sync < Release < UpdateSnapshotState < Compact, each predecessor successful, and for an incoming snapshot persist < Sync < raftDone < ApplySnapshot < Release; (S3) at start the engine data is cleaned or restored from the snapshot's checkpoint before the node is (re)started, and only snapshots at or below the WAL's commit index are considered; (S4) apply completion (snapshot trigger, applyWaitDone, snapshot restore) is reported only after raft persistence was signalled; (S5) the replay boundary is the last WAL entry; (S6) the checkpoint data is complete before the raft snapshot that names it is created and saved. (S6, write-back) the same HLL registration rule as C14-B1: an acknowledged PFADD is in the dirty cache that is flushed before the checkpoint named by the snapshot.",
+		Explanation: "Decides the ordering obligations named in the property's anchors on every path: (S1) the snapshot file is written and fsynced before its WAL marker; (S2) in the snapshot goroutine SaveSnap < Sync < Release < UpdateSnapshotState < Compact, each predecessor successful, and for an incoming snapshot persist < Sync < raftDone < ApplySnapshot < Release; (S3) at start the engine data is cleaned or restored from the snapshot's checkpoint before the node is (re)started, and only snapshots at or below the WAL's commit index are considered; (S4) apply completion (snapshot trigger, applyWaitDone, snapshot restore) is reported only after raft persistence was signalled; (S5) the replay boundary is the last WAL entry; (S6) the checkpoint data is complete before the raft snapshot that names it is created and saved. (S6, write-back) the same HLL registration rule as C14-B1: an acknowledged PFADD is in the dirty cache that is flushed before the checkpoint named by the snapshot. (S9) SaveSnapshot stores the WAL's last-entry index only under enti < snapshot index: a marker behind the log's end never lowers it.",
 		NotDecided:  "end-to-end equality of served data with the acknowledged history, every crash instant (only the order of durable effects is decided, not their atomicity), purge timing, rsync transfer, engine behaviour.",
 		Assumptions: []string{
 			"calls to Panic*/Fatal* logger methods do not return",
@@ -233,4 +233,27 @@ func c06S8(c *Ctx) {
 func init() {
 	old := registry["C06"].Run
 	registry["C06"].Run = func(c *Ctx) { old(c); c06S8(c) }
+}
+
+// S9: the WAL's last-entry index never moves backwards. cut() names the next segment file after it and the restart
+// picks the segment to start reading from by those names: a snapshot marker written for an index below the last entry
+// (the snapshot goroutine runs behind the log) must not lower it.
+func c06S9(c *Ctx) {
+	r := c.R
+	r.Clause("C06-S9", "a snapshot marker behind the log's end does not lower the WAL's last index")
+	u := c.unit("C06-S9", "wal.(*WAL).SaveSnapshot")
+	if u == nil {
+		return
+	}
+	st := u.Match(an.Store("wal.WAL.enti"))
+	for _, s := range st {
+		r.GuardSite("C06-S9", u, s, c.W.Parse("recv.enti < p0.Index"), "only a snapshot ahead of the last entry advances the last index")
+		r.Check("C06-S9", u.Name+": the last index becomes the snapshot's index", u.Pos(s.Pos), s.RHS != nil && u.C.Term(s.RHS) == "p0.Index", "")
+	}
+	r.Min("C06-S9", len(st), 1, "stores to the last index in SaveSnapshot")
+}
+
+func init() {
+	old := registry["C06"].Run
+	registry["C06"].Run = func(c *Ctx) { old(c); c06S9(c) }
 }
